@@ -56,6 +56,8 @@ type gen struct {
 	txFacts map[[2]int]*TxFacts
 	entropy int64
 	accepted [][2]int // (block, tx) of transactions the model accepted (candidates for replay)
+	aclTaker int      // while a gov/acl value is being built: the account it should name as the list's owner (-1: none)
+	refused  [][2]int // ... and of those it saw refused, before or after the ante handler passed (replayed too)
 	pendingIndex []string
 }
 
@@ -181,7 +183,7 @@ var stakeChoices = []int64{1000001, 1000002, 1500000, 2000000, 2000000, 3000000,
 func Generate(property, tier string, seed uint64) *Trace {
 	r := core.NewRng(seed)
 	mode := modeFor(property, r)
-	g := &gen{r: r, cfg: configFor(mode, tier, r), sets: map[int64][]SetMember{}, beh: map[int]*valBehaviour{}, acctOf: map[string]int{},
+	g := &gen{aclTaker: -1, r: r, cfg: configFor(mode, tier, r), sets: map[int64][]SetMember{}, beh: map[int]*valBehaviour{}, acctOf: map[string]int{},
 		times: map[int64]int64{}, txFacts: map[[2]int]*TxFacts{}}
 	tr := &Trace{Engine: "chainsim", Property: property, Mode: mode, Seed: seed, KeySeed: core.SplitMix64(seed ^ 0x6b657973)}
 	g.tr = tr
@@ -210,6 +212,9 @@ func Generate(property, tier string, seed uint64) *Trace {
 			b = int64(r.Range(100000000, 2000000000))
 		case 4:
 			b = 4000000000000000000
+			if r.Chance(0.4) {
+				gen.Kilo = append(gen.Kilo, i) // 4e21: a stake of it has a consensus power whose token value is beyond 2^63
+			}
 		}
 		gen.Balances = append(gen.Balances, b)
 	}
@@ -370,7 +375,7 @@ func Generate(property, tier string, seed uint64) *Trace {
 	// ---- model of the generator
 	g.m = NewModel(g.kr, gen)
 	for i := range gen.Balances {
-		g.m.Bal[acctKey(i)] = big.NewInt(gen.EffectiveBalance(i))
+		g.m.Bal[acctKey(i)] = gen.EffectiveBalance(i)
 	}
 	g.times[0] = gen.TimeUnix * 1e9
 	g.sets[1] = g.m.ExpectedSet()
@@ -722,6 +727,9 @@ func (g *gen) addTx(bi int, s TxSpec) {
 		stage = "pre"
 	}
 	g.m.ApplyTx(&f, stage)
+	if stage != "ok" && s.Kind != "replay" && s.Kind != "raw" && s.RawMut == "" {
+		g.refused = append(g.refused, [2]int{bi, ti})
+	}
 	if stage == "ok" {
 		g.accepted = append(g.accepted, [2]int{bi, ti})
 		if s.Kind == "change_param" {
@@ -953,7 +961,13 @@ func (g *gen) genTx(bi int) {
 				s.Acct = g.pickAcct()
 			}
 		}
+		g.aclTaker = -1
+		if k == "gov/acl" && !(ok && owner == s.Acct) && r.Chance(0.5) {
+			// somebody who does not own the list submits a well-formed list that names them as its owner
+			g.aclTaker = s.Acct
+		}
 		s.ParamVal = g.paramValue(k)
+		g.aclTaker = -1
 		if r.Chance(0.12) {
 			// a value whose first fields are well-formed and a later one is not
 			switch k {
@@ -1076,9 +1090,30 @@ func (g *gen) genTx(bi int) {
 			return
 		}
 		ref := g.accepted[r.Intn(len(g.accepted))]
+		if len(g.refused) > 0 && r.Chance(0.3) {
+			// the bytes of a transaction that was in a block but refused (by the ante handler or by the message handler)
+			ref = g.refused[r.Intn(len(g.refused))]
+		}
+		if r.Chance(0.3) {
+			// the same bytes again within the block they first appeared in (the tx index has not seen that block yet)
+			var here [][2]int
+			for _, c := range g.accepted {
+				if c[0] == bi {
+					here = append(here, c)
+				}
+			}
+			for _, c := range g.refused {
+				if c[0] == bi {
+					here = append(here, c)
+				}
+			}
+			if len(here) > 0 {
+				ref = here[r.Intn(len(here))]
+			}
+		}
 		s.ReplayBlock, s.ReplayTx = ref[0], ref[1]
 		if r.Chance(0.45) {
-			s.Mut = []string{"fee", "memo", "entropy", "msg", "sflip", "sflip"}[r.Intn(6)]
+			s.Mut = []string{"fee", "memo", "entropy", "msg", "sflip", "sflip", "memosp"}[r.Intn(7)]
 		}
 		g.addTx(bi, s)
 		return
@@ -1134,7 +1169,7 @@ func (g *gen) genTx(bi int) {
 		case 1:
 			s.ChainID = "otherchain"
 		case 2:
-			s.Mut = []string{"fee", "memo", "entropy", "msg", "sigbit", "sigtrunc", "pubkey", "sflip", "nomsg", "nopubstake", "msigshort", "hashsig"}[r.Intn(12)]
+			s.Mut = []string{"fee", "memo", "entropy", "msg", "sigbit", "sigtrunc", "pubkey", "sflip", "nomsg", "nopubstake", "msigshort", "hashsig", "memosp"}[r.Intn(13)]
 			if isMultiType(g.kr.Get(s.SignBy).Type) && r.Chance(0.6) {
 				s.Mut = []string{"msigshort", "onecosigner"}[r.Intn(2)]
 			}
@@ -1202,6 +1237,9 @@ func (g *gen) paramValue(k string) string {
 			o, ok := g.m.P.ACL[key]
 			if !ok || o < 0 || r.Chance(0.3) {
 				o = g.pickAcct()
+			}
+			if g.aclTaker >= 0 && (key == "gov/acl" || r.Chance(0.3)) {
+				o = g.aclTaker
 			}
 			acl = append(acl, govTypes.ACLPair{Key: key, Addr: g.kr.Get(o).Addr})
 		}
